@@ -499,6 +499,24 @@ theorem counter_wrong_field_named_allof :
     sequentialResult sh0 (progAllOf (.const "a") (-1) [(0, false), (1, true)]) = some (.raised (.invalid "a")) := by
   decide
 
+/-- sites `multified_wrappers.py:OneOf.__set__` + `array.py:extract_field_value`, `a = Array[OneOf[Integer(minimum=0), String]]`
+    (cell 0 = the OneOf object, whose own `_name` is the scratch of the outer loop; cells 1, 2 = its options): thread 0's
+    `[-4]` matches no option; its error names `a` (what thread 1's first write left) instead of element `a_0` -/
+theorem counter_wrong_field_named_nested_oneOf :
+    resultAt (run (Cfg.init sh0 [progNest 0 "a" .oneOf [(-4, [(1, false), (2, false)])],
+        progNest 0 "a" .oneOf [(7, [(1, true), (2, false)])]]) [0,0,0,0,1,0,0,0,0,0]) 0 = some (.raised (.invalid "a")) ∧
+    sequentialResult sh0 (progNest 0 "a" .oneOf [(-4, [(1, false), (2, false)])]) = some (.raised (.invalid "a_0")) := by
+  decide
+
+/-- sites `multified_wrappers.py:NotField.__set__` + `array.py:extract_field_value`, `a = Array[NotField[String]]`: thread 1
+    silently stores `[20, 20, 22]` for the input `[20, 21, 22]` -/
+theorem counter_wrong_element_nested_notField :
+    resultAt (run (Cfg.init sh0 [progNest 0 "a" .notField [(10, [(1, false)])],
+        progNest 0 "a" .notField [(20, [(1, false)]), (21, [(1, false)]), (22, [(1, false)])]])
+      [1,1,1,1,1,1,1,1,1,1,1,1,1, 0,0,0, 1,1,1,1,1,1,1, 0,0,0,0,0]) 1 = some (.ok [20, 20, 22]) ∧
+    sequentialResult sh0 (progNest 0 "a" .notField [(20, [(1, false)]), (21, [(1, false)]), (22, [(1, false)])])
+      = some (.ok [20, 21, 22]) := by decide
+
 /-! ### the model follows the table -/
 
 def efvKey : String := "shared-_name:array.py:extract_field_value"
